@@ -97,6 +97,11 @@ fn render_attrs(attrs: &Attrs, indent: &str, out: &mut String) {
         if g.is_empty() {
             continue;
         }
+        // an item that is a whole attribute by itself (malformed non-list forms) is printed verbatim
+        if g.len() == 1 && g[0].text.starts_with("#[") {
+            let _ = writeln!(out, "{indent}{}", g[0].text);
+            continue;
+        }
         let _ = writeln!(out, "{indent}#[deserr({})]", g.iter().map(|x| x.text.clone()).collect::<Vec<_>>().join(", "));
     }
 }
@@ -622,6 +627,31 @@ impl<'a> G<'a> {
                 if self.chance(0.2) {
                     let raw = self.pick(&raw_forms);
                     return CItem { attrs: vec![], body: Body::RawAttrStruct(raw.to_string(), vec![CField { attrs: vec![], name: "alpha".into(), ty: "u8".into(), poison: false }]), cause: "malformed-syntax".into(), level: "container", form: "-", base: "struct" };
+                }
+                if self.chance(0.2) {
+                    // the same non-list forms on a field or on a variant
+                    let raw = self.pick(&raw_forms);
+                    if self.chance(0.5) {
+                        let mut it = self.valid_struct();
+                        if let Body::Struct(fs) = &mut it.body {
+                            fs.push(CField { attrs: vec![vec![px(raw)]], name: "poisoned".into(), ty: "u8".into(), poison: true });
+                        }
+                        it.cause = "malformed-syntax".into();
+                        it.level = "field";
+                        it.form = "non-list";
+                        return it;
+                    } else {
+                        let mut it = if self.chance(0.5) { self.valid_tagged_enum() } else { self.valid_unit_enum() };
+                        if let Body::Enum(vs) = &mut it.body {
+                            let i = self.below(vs.len());
+                            vs[i].attrs.push(vec![px(raw)]);
+                            vs[i].poison = true;
+                        }
+                        it.cause = "malformed-syntax".into();
+                        it.level = "variant";
+                        it.form = "non-list";
+                        return it;
+                    }
                 }
                 let mut it = if lvl == 1 { self.valid_tagged_enum() } else { self.valid_struct() };
                 let mut level = "container";
